@@ -11,12 +11,51 @@ from .. import callrun
 from . import c18_settings
 
 
+def internal_mode(chk):
+    """AIP-4235 holds for a method whatever its visibility: with selective generation in INTERNAL mode the unlisted CreateThing
+    becomes _create_thing, its settings stay valid and it still gets fresh UUID4 ids iff the caller left the fields unset."""
+    import copy, os
+    from .. import gen, core, pipeline
+    api = copy.deepcopy(callrun.carrier_api())
+    api['yaml']['publishing']['library_settings'] = [{'version': callrun.PKG, 'python_settings': {'common': {'selective_gapic_generation': {
+        'methods': [f'{callrun.PKG}.Things.GetThing'], 'generate_omitted_as_internal': True}}}}]
+    with gen.scratch() as work:
+        try:
+            req, res = gen.generate_api(api, dict(transport=['grpc', 'rest'], snippets=False), work)
+        except Exception as e:
+            chk.case('internal-mode:generation')
+            chk.violation('internal-mode:generation', f'valid method settings rejected in internal mode: {type(e).__name__}: {e}'[:300]); return
+        root = gen.materialise(res, os.path.join(work, 'out'))
+        for fdp in req.proto_file:
+            if fdp.name.startswith('other/'):
+                pipeline.write_pb2(fdp, root)
+        ok, out, err = gen.run_driver('harness.drivers.internal_autopop', root, dict(api=api, module=callrun.MODULE), timeout=600)
+    if not ok:
+        raise core.MachineryError('internal_autopop driver failed:\n' + err)
+    ids = set()
+    for o in out['obs']:
+        k = f"internal-mode:{o['path']}:{o['case']}"
+        chk.case(k, nontrivial=True)
+        if o.get('error'):
+            chk.violation(k + ':raised', f"{o['method']} raised {o['error']} (classes {o['classes']})", o); continue
+        rid, oid = o.get('request_id'), o.get('opt_request_id')
+        if o['case'] == 'set':
+            if (rid, oid) != ('mine', 'mine-too'):
+                chk.violation(k + ':altered', f'caller-provided ids were altered: {rid!r}, {oid!r}', o)
+        else:
+            for name, v in (('request_id', rid), ('opt_request_id', oid)):
+                if not (isinstance(v, str) and callrun.UUID4.match(v)) or v in ids:
+                    chk.violation(k + ':not-populated', f'{o["method"]}: {name} = {v!r} is not a fresh version-4 UUID', o)
+                ids.add(v)
+
+
 def main(chk, args):
     quick = chk.tier == 'quick'
     sel = lambda c: c['method'] == 'CreateThing' or (c['method'] == 'GetThing' and c['form'] == 'msg')
     cases = callrun.get_cases(chk, quick, chk.seed, select=sel, n_quick=3000)
     callrun.check(chk, cases, 'C18')
     c18_settings.run(chk)
+    internal_mode(chk)
     chk.rule = ('call-time: final states of Call.tla for CreateThing (both id fields unset/empty/set, via request, dict, kwargs) on three call '
                 'paths + a method without settings (no UUID anywhere); generation-time: every settings list of Settings.tla; '
                 'non-trivial = all; distinct by case key')
